@@ -110,7 +110,7 @@ impl RecoverRunner {
             if infos.is_empty() {
                 clean_blocks.push(block);
             } else {
-                evictable_blocks.push(block);
+                evictable_blocks.push((infos[0].addr.sequence, block));
             }
 
             for EntryInfo { hash, addr } in infos {
@@ -145,7 +145,11 @@ impl RecoverRunner {
         // Update components.
         indexer.insert_batch(indices);
         sequence.store(latest_sequence + 1, Ordering::Release);
-        block_manager.init(&clean_blocks);
+        // Hand the blocks with data to the eviction pickers oldest-filled first, as they were before the restart:
+        // reclaiming a newer block first would leave older versions of its entries to be recovered next time.
+        evictable_blocks.sort_unstable();
+        let evictable_blocks = evictable_blocks.into_iter().map(|(_, block)| block).collect_vec();
+        block_manager.init(&clean_blocks, &evictable_blocks);
 
         let elapsed = now.elapsed();
         tracing::info!("[recover] finish in {:?}", elapsed);
